@@ -9,6 +9,18 @@ CLAIMED = {
  "C07": dict(design="6 (C07)", technique="Coq proof (iff characterisation of verify + algebraic corollaries over an arbitrary field) + differential correspondence of the Gallina model against the implementation + independent pairing monitor",
    text="Machine-checked theorems (Properties/C07.v): verify = true iff sigma1 != identity and e(sigma1, X~ + sum mi Y~i) = e(sigma2, g~) for every key, message and signature value; sign / randomize (exactly for r != 0; r = 0 gives the rejected all-identity signature) / blind_and_randomize+unblind / blind-sign+unblind verify; a valid signature verifies on another message iff <Y~, m - m'> = 0, hence never after a single-coordinate change; wrong blinding factor, changed X~, g~ or Y~j reject. Tied to /repo by evaluating the model in Coq on the same chains as the implementation (known-discrete-log keys and KeyPair::new keys, N in {1,2,3,5,8,13}, scripted randomisers incl. 0) and by an independent evaluation of the relation with bls12_381::pairing.",
    note="Trusted: Coq kernel + vm_compute; bls12_381 (groups, pairing, codecs) modelled in discrete-log form; harness/driver. Nothing computational is needed for this property. No axioms."),
+ "C11": dict(design="6 (C11)", technique="Coq proof (iff characterisations, perturbation lemmas with exact side conditions, special soundness via the field tactic) + differential correspondence + independent curve/pairing monitor",
+   text="Machine-checked theorems (Properties/C11.v): commitment-proof and signature-request verification accept iff commit(responses) = T + c*C; signature-proof verification iff additionally sigma1' != identity and e(sigma1', X~ + C) = e(sigma2', g~); each single-field change of an accepted proof rejects under its exact side condition (C: c != 0; T: always; response j: g_j != identity; bf response: h != identity; challenge: C != identity; generator j: r_j != 0); simulated transcripts are accepted under another challenge iff (c'-c)*C = 0; identity blinded signatures never accepted; special soundness (two accepting challenges for one first message yield an opening, and for signature proofs a valid signature on it). Tied to /repo by verifying proofs assembled from bytes with known discrete logs in the implementation and in the Coq model, plus an independent evaluation of the relations on the wire atoms.",
+   note="Trusted: Coq kernel + vm_compute; bls12_381 modelled in discrete-log form; harness/driver. 'Assembled without knowing an opening is never accepted' is proved as special soundness; the step to 'no efficient prover' (rewinding, discrete-log hardness) is not formalised. Challenge value 0 is unreachable through the API and covered by theorems only. No axioms."),
+ "C10": dict(design="6 (C10)", technique="Coq proof of completeness for all messages / lengths / randomness / challenges + differential correspondence with order-free recovery of the prover's randomness",
+   text="Machine-checked theorems (Properties/C10.v): commitment, signature-request, signature (exactly for randomiser != 0) and range-constraint (for every value in [0,2^63), any valid parameter set) proofs built by the model prover verify, for every message, tuple length, randomness and challenge; builder and proof feed the same chunks to the challenge; response scalars are c*m_j + k_j, of which all six documented patterns are instances; range link. Tied to /repo by running the library provers under a scripted RNG, recovering every named random value from the served tape (order-free), and requiring the Coq model to reproduce the proof atoms exactly; the hook compares the hashed chunk lists of builder and proof.",
+   note="Trusted: Coq kernel + vm_compute; bls12_381 in discrete-log form; harness/driver incl. the randomness-recovery search (its answer is trusted only because the model must then reproduce the bytes). No axioms."),
+ "C08": dict(design="6 (C08)", technique="Coq proof (constructor uniqueness of the blind-signable value, end-to-end request/sign/unblind theorem) + differential correspondence",
+   text="Machine-checked theorems (Properties/C08.v): the model's verifier returns a blind-signable value iff the Schnorr relation holds and that value is the proof's own commitment; honest request -> blind signature (u != 0) -> unblinding gives a signature verifying on the requested message and rejecting every single-coordinate change (multi-coordinate changes are accepted iff <Y~, m-m'> = 0). Tied to /repo by running request/verify/blind-sign/unblind/verify through the API (known-log and generated keys, all N) against the model, and by tampering every field of the request.",
+   note="Trusted: as C07/C11. Computational residue: a party without the secret y cannot solve <Y~, m-m'> = 0 for a multi-coordinate change (discrete log) - stated, not proved. No axioms."),
+ "C13": dict(design="6 (C13)", technique="Coq proof (digit arithmetic by lia for all integers, verifier iff, completeness, special soundness) + differential correspondence + assembled-constraint monitor",
+   text="Machine-checked theorems (Properties/C13.v): prover refuses every negative and accepts every non-negative i64; nine base-128 digits of v in [0,2^63) recompose to v; any nine digits in [0,128) sum to at most 2^63-1 < q (no wrap); honest constraints verify against c*v + commitment scalar and reject any other link; range_verify iff nine signature-proof relations and the weighted response sum; special soundness: an accepted constraint (two transcripts) yields per digit a message with a valid range-key signature whose weighted sum is the linked value; validate iff the i-th signature verifies on i. Tied to /repo on the i64 lattice, with constraints assembled from published digit signatures (all-maximal, swapped, foreign digit signature, digit 128 claim, outside-range link, 8/10 proofs) and substituted parameter sets.",
+   note="Trusted: as C11. 'No constraint verifies outside the range' additionally needs: only the 128 published digit signatures exist for the discarded key (PS unforgeability) - named, not proved. No axioms."),
 }
 PENDING_REASON = "check under construction in this session (DESIGN.md section 10 build order); nothing is claimed for it yet"
 def main():
